@@ -189,6 +189,19 @@ func (x *Exec) chanRecv(st *State, fr *Frame, ch Term, n ast.Node, k func(*State
 		x.unsupported(n, "receive from a value that is not a channel")
 		return
 	}
+	if !x.selectRecv {
+		// a blocking receive after cancellation, from a channel this goroutine is responsible
+		// for closing, ends only if it has closed it (or has seen it closed)
+		var mine []Term
+		for _, c := range x.closesChans {
+			mine = append(mine, tEq(ch, c))
+		}
+		if len(mine) > 0 {
+			x.oblige(st, "progress", "recv-after-cancel", tImp(tAnd(x.ghostBool(st, "sawCancel"), tOr(mine...)),
+				tOr(x.chFlag(st, "closed", ch), x.chFlag(st, "drained", ch))), n, "after cancel, a blocking receive from a channel the goroutine may close needs that channel closed (otherwise the goroutine waits for a sender that may never come)")
+		}
+	}
+	x.selectRecv = false
 	s2 := st.clone()
 	v := x.d.fresh("rcv", es)
 	if c, ok := types.Unalias(ch.Ty).Underlying().(*types.Chan); ok {
@@ -218,7 +231,16 @@ func (x *Exec) chanRecv(st *State, fr *Frame, ch Term, n ast.Node, k func(*State
 func (x *Exec) chanSend(st *State, fr *Frame, ch Term, v Term, n ast.Node, guarded bool) {
 	x.oblige(st, "chan", "send-perm", tOr(x.chFlag(st, "own", ch), tApp("Bool", ">", x.chInt(st, "myshare", ch), tInt(0))), n, "send needs the send permission of the channel")
 	x.oblige(st, "chan", "send-open", tNot(x.chFlag(st, "closed", ch)), n, "no send after this goroutine closed the channel")
-	if !guarded && x.opts["baresend"] != "delivery" {
+	if !guarded && x.opts["baresend"] == "flush" {
+		// a stage that must stay ready for its input (the unbounded channel: "a send never
+		// waits for the receiver") may block on an output only while flushing: after cancel
+		// or after its input has been closed
+		conds := []Term{x.ghostBool(st, "sawCancel")}
+		for _, c := range x.inputChans {
+			conds = append(conds, x.chFlag(st, "drained", c))
+		}
+		x.oblige(st, "progress", "bare-send-only-when-flushing", tOr(conds...), n, "a blocking send is allowed only after cancel or after the input is closed (otherwise senders wait for the receiver)")
+	} else if !guarded && x.opts["baresend"] != "delivery" {
 		// a bare send may block forever unless a free buffer slot is guaranteed
 		x.oblige(st, "progress", "bare-send", tApp("Bool", ">", x.chInt(st, "slots", ch), tInt(0)), n, "a send outside select needs a guaranteed free slot")
 		x.chSetInt(st, "slots", ch, tApp("Int", "-", x.chInt(st, "slots", ch), tInt(1)))
@@ -298,6 +320,7 @@ func (x *Exec) selectStmt(st *State, fr *Frame, s *ast.SelectStmt, k func(*State
 					lhs = as.Lhs
 				}
 				cc := a.cc
+				x.selectRecv = true
 				x.chanRecv(b, fr, a.ch, a.cc, func(s2 *State, v Term, okT Term) {
 					if len(lhs) > 0 {
 						x.store(s2, fr, lhs[0], v)
